@@ -28,13 +28,17 @@ pub struct Frag { pub raw: String, pub org: Org }
 pub struct Def { pub formals: Option<Vec<(String, Option<String>)>>, pub body: Option<String>, pub body_bt: Option<Vec<BT>>, pub defaults_bt: Vec<Option<Vec<BT>>>, pub file: Option<String>, pub body_start: usize }
 
 #[derive(Clone, Debug, PartialEq)]
-pub enum RErr { DefineNotFound(String), DefineArgNotFound(String), DefineNoArgs(String), IncludeLine, File(String), Exceed, Include(Box<RErr>) }
+pub enum RErr { DefineNotFound(String), DefineArgNotFound(String), DefineNoArgs(String), IncludeLine, File(String), Exceed, Include(Box<RErr>),
+    /// the case leaves the domain of this reference evaluator (the case is skipped, never judged)
+    Unmodelled }
+
+pub fn is_unmodelled(e: &RErr) -> bool { match e { RErr::Unmodelled => true, RErr::Include(x) => is_unmodelled(x), _ => false } }
 
 pub fn rerr_str(e: &RErr) -> String {
     match e {
         RErr::DefineNotFound(s) => format!("DefineNotFound({})", s), RErr::DefineArgNotFound(s) => format!("DefineArgNotFound({})", s),
         RErr::DefineNoArgs(s) => format!("DefineNoArgs({})", s), RErr::IncludeLine => "IncludeLine".into(), RErr::File(p) => format!("File({})", p),
-        RErr::Exceed => "ExceedRecursiveLimit".into(), RErr::Include(e) => format!("Include[{}]", rerr_str(e)),
+        RErr::Exceed => "ExceedRecursiveLimit".into(), RErr::Include(e) => format!("Include[{}]", rerr_str(e)), RErr::Unmodelled => "unmodelled".into(),
     }
 }
 
@@ -144,7 +148,14 @@ impl Eval {
 
     fn subst(&mut self, body: &[BT], bind: &[String], depth: usize) -> Result<String, RErr> {
         let mut out = String::new();
-        for x in body {
+        for (xi, x) in body.iter().enumerate() {
+            // a nested usage without argument list directly followed by a formal whose actual starts with "(": after substitution the
+            // re-scan reads that actual as the usage's argument list; this evaluator works on the AST and does not model re-tokenisation
+            if let BT::Usage(_, None) = x {
+                let mut j = xi + 1;
+                while j < body.len() && matches!(body[j], BT::Sp | BT::Cont) { j += 1; }
+                if let Some(BT::Formal(i)) = body.get(j) { if bind[*i].trim_start().starts_with('(') { return Err(RErr::Unmodelled); } }
+            }
             match x {
                 BT::Tok(s) | BT::Str(s) => out.push_str(s),
                 BT::Formal(i) => out.push_str(&bind[*i]),
@@ -231,7 +242,8 @@ impl Eval {
                     let a: Option<Vec<Option<String>>> = args.as_ref().map(|v| if v.is_empty() { vec![None] } else { v.iter().map(|x| x.as_ref().map(|b| bt_text(b, &[]))).collect() });
                     let s = self.expand(name, &a, 1)?;
                     let org = match self.defs.get(name) { Some(Some(d)) => match &d.file { Some(f) => Org::Exp(f.clone(), d.body_start), None => Org::NoneOrg }, _ => Org::NoneOrg };
-                    if !s.is_empty() { self.frags.push(Frag { raw: s, org }); }
+                    // an expansion without any non-blank character can still contribute blanks (they map to the definition): keep an empty marker fragment
+                    if !s.is_empty() || matches!(org, Org::Exp(..)) { self.frags.push(Frag { raw: s, org }); }
                     if matches!(self.defs.get(name), Some(Some(d)) if d.body_bt.is_some()) { self.reinstall_cov(); }
                 }
                 It::Cond { neg, name, then, elsifs, els } => {
